@@ -290,6 +290,7 @@ def run(prop, res, tier, seed):
                               {"texts": {"m1": fixed2}, "binder": "piped", "shown": shown})
     # 2b. a custom type may be called like a type of the prelude (legal Gleam: the module's own type wins); expected types by construction
     run_prelude_named(res, rng, tier)
+    run_use_shadow(res, rng, tier)
     # 2. programs
     stats, vstats = run_programs(res, rng, 40 if tier == "quick" else 1200, tier)
     if vstats["expected_rejected"] > 0.5 * max(1, vstats["expected_ok"] + vstats["expected_rejected"]):
@@ -350,6 +351,41 @@ def run_prelude_named(res, rng, tier):
                                       f"a module's own type `{n}` ({how}): `{b}` is shown as `{shown}`, Gleam's type is `{want[b]}`",
                                       {"texts": {p: t for p, t in files}, "binder": b, "shown": shown, "expected": want[b]})
                     break
+
+
+def run_use_shadow(res, rng, tier):
+    """`use x <- f(g(x))`: the name bound by the use pattern is also mentioned in the call on the right - there it still means
+    the OUTER binder (a use pattern is not in scope in its own right-hand side); types fixed by the construction"""
+    helpers = ("pub fn try(r: Result(a, e), f: fn(a) -> Result(b, e)) -> Result(b, e) {\n  case r {\n    Ok(v) -> f(v)\n    Error(x) -> Error(x)\n  }\n}\n\n"
+               "pub fn parse(t: String) -> Result(Int, Nil) {\n  Ok(1)\n}\n\npub fn halve(n: Int) -> Result(Float, Nil) {\n  Ok(0.5)\n}\n\n")
+    progs = [
+        ("pub fn checked(text) {\n  use text <- try(parse(text))\n  Ok(#(text, 1))\n}\n",
+         {"pub fn checked": "fn(String)->Result(#(Int,Int),Nil)", "checked(text": "String", "use text": "Int"}, {"pub fn checked": 7, "checked(text": 8, "use text": 4}),
+        ("pub fn twice(n) {\n  use n <- try(halve(n))\n  use n <- try(Ok(#(n, n)))\n  Ok(n)\n}\n",
+         {"pub fn twice": "fn(Int)->Result(#(Float,Float),Nil)", "twice(n": "Int", "use n <- try(halve": "Float"}, {"pub fn twice": 7, "twice(n": 6, "use n <- try(halve": 4}),
+        ("pub fn both(text, n) {\n  use n <- try(halve(n))\n  use text <- try(parse(text))\n  Ok(#(text, n))\n}\n",
+         {"pub fn both": "fn(String,Int)->Result(#(Int,Float),Nil)", "use n": "Float", "use text": "Int"}, {"pub fn both": 7, "use n": 4, "use text": 4}),
+    ]
+    for body, want, delta in progs:
+        text = helpers + body
+        lines = ["ws-begin", f"file\t/w/p/src/m1.gleam\t{hexs(text)}", "file\t/w/p/gleam.toml\t" + hexs('name = "p"\n'), "root\t/w/p\t0,1", "pkg\tp\t1\t1\t-", "ws-end"]
+        probes = list(want)
+        for needle in probes:
+            at = text.index(needle) + delta[needle]
+            lines.append(f"hover\t0\t{len(text[:at].encode())}")
+        out, rc = common.run_lines(common.HARNESS_BIN, lines)
+        res.cov["evaluations"] += len(probes)
+        if len(out) != len(lines):
+            continue
+        for needle, a in zip(probes, out[-len(probes):]):
+            shown = strip_md(unhexs(a.split(" ", 1)[1])) if " " in a else None
+            if shown is None:
+                continue
+            if re.sub(r"\s+", "", shown) != want[needle]:
+                res.add_violation("C09/wrong-type/use-pattern-shadows-a-name-of-its-own-call",
+                                  f"`{needle}` is shown as `{shown}`, Gleam's type is `{want[needle]}`",
+                                  {"texts": {"m1": text}, "binder": needle, "shown": shown, "expected": want[needle]})
+                break
 
 
 def replay(prop, path):
